@@ -136,3 +136,25 @@ def stream_length(stream):
     n = stream.tell()
     stream.seek(pos)
     return n
+
+
+_ET = {'ET_NONE': 0, 'ET_REL': 1, 'ET_EXEC': 2, 'ET_DYN': 3, 'ET_CORE': 4, None: 2}
+
+
+def elf_object(ctx, stream, cls, little, machine='EM_X86_64', e_type='ET_EXEC', osabi=0):
+    """A REAL ELFFile (opened on a minimal, valid header-only image of the wanted class / byte order / machine / file type) whose
+    stream is then replaced by `stream`: the object the section and table classes of the library receive as `elffile`.
+    Being the library's own object it has every attribute ELFFile.__init__ sets up, whatever they are in the current source -
+    a hand-written double would fail on an attribute it does not know, for a reason that says nothing about the property."""
+    from spec import registry as REG
+    EF = ctx.lib('elf.elffile')
+    if isinstance(machine, str):
+        vals = sorted(REG.values(machine))
+        mnum = vals[0] if vals else 0
+    else:
+        mnum = machine
+    img = Image(cls, little, machine=mnum, e_type=_ET.get(e_type, e_type), osabi=osabi) if 'osabi' in Image.__init__.__code__.co_varnames else Image(cls, little, machine=mnum, e_type=_ET.get(e_type, e_type))
+    elf = EF.ELFFile(ctx.stream(img.build()))
+    elf.stream = stream
+    elf.stream_len = stream_length(stream)
+    return elf
